@@ -247,7 +247,7 @@ def oracle(case):
     if feas == "grey":
         case["_grey"] = True
         return []
-    sources = [("cif", parse_cif_atoms(atomtab.emit_cif(atoms, case.get("null", "?"))))]
+    sources = [("cif", parse_cif_atoms(atomtab.emit_cif(atoms, case.get("null", "?"), dialect=case.get("dialect"))))]
     if fits(atoms) and not case.get("oversize"):
         sources.append(("pdb", parse_pdb_atoms(atomtab.emit_pdb(atoms, always_model=True))))
     for tag, df in sources:
@@ -289,7 +289,7 @@ def oracle_splitter(case):
     os.makedirs(base)
     src = os.path.join(base, "input.cif")
     with open(src, "w") as f:
-        f.write(atomtab.emit_cif(atoms, case.get("null", "?")))
+        f.write(atomtab.emit_cif(atoms, case.get("null", "?"), dialect=case.get("dialect")))
     outdir = os.path.join(base, "out")
     out = []
     old = sys.argv
@@ -490,6 +490,8 @@ def classify(case):
         labs.append("sub-table:" + case["select"][0])
     if case.get("cli") is True:
         labs.append("splitter-cli")
+    if case.get("dialect"):
+        labs.append("label-names-differ-from-author-names")
     if len({a["model"] for a in atoms}) >= 2:
         labs.append("models>=2")
     if any(a["icode"] for a in atoms):
@@ -512,8 +514,10 @@ def st_cases():
         "later_models_shift": st.sampled_from(["", "", "serial", "number"]),
     })
     select = st.one_of(st.none(), st.tuples(st.sampled_from(["model", "groupby-model", "chain", "chains-alternate"]), st.integers(0, 3)).map(list))
+    # label-side atom / residue names that differ from the author-side ones (old vs remediated nomenclature)
+    dialect = st.sampled_from([None, None, {"label_alias": True}])
     return st.fixed_dictionaries({"atoms": atomtab.st_tables(max_residues=4, max_atoms=5), "mod": mod, "null": st.sampled_from(["?", "."]),
-                                  "select": select})
+                                  "select": select, "dialect": dialect})
 
 
 def st_unifier_cases():
